@@ -2,6 +2,7 @@ package engine
 
 import (
 	"fmt"
+	"net/url"
 	"sort"
 	"strings"
 )
@@ -24,15 +25,16 @@ func init() {
 		NonTrivial: func(o *Outcome) bool {
 			return o.Hist.Probes["probe-pairs-compared"] > 0 && o.Hist.Probes["reloads"] > 0
 		},
-		Rule:         "seeded sequences of 1-5 valid configurations derived by random mutations (server: min-length / filter / compress profile / cache / location list set and unset; location: rewrite, added headers, added query, upstream; upstream: server set, Accept-Encoding, policy; add / remove of a server, a location, a compress profile, the bestCompression override, a cache; restart-only settings of surviving caches held constant as documented), applied by a reload task whose steps interleave with client traffic at every yield point. Then a fixed probe battery (servers x paths x Accept-Encoding x sizes around the thresholds x content types, every probe sent twice) is answered by the live-updated instance, the process image is replaced by a fresh instance started with the final configuration only (same simulated world), and the same battery is answered again: the observation vectors (origin reached, request as the origin saw it, status, headers, Content-Encoding, encoded length, cache label) must be equal. Also: requests to the unchanged server never fail during updates, its cached entries survive, a removed server refuses service after the 10s grace. non-trivial = at least one reload happened and one probe pair was compared; distinct = distinct history hash",
-		ExpectProbes: []string{"probe-pairs-compared", "reloads", "stable-request-during-reload", "stable-entry-hit-after-reload", "removed-server-refused-after-grace", "optional-field-unset", "server-added", "server-removed", "two-servers-removed-in-one-update"},
+		Rule:         "seeded sequences of 1-5 valid configurations derived by random mutations (server: min-length / filter / compress profile / cache / location list set and unset; location: rewrite, added headers, added query, upstream; upstream: server set, Accept-Encoding, policy; add / remove of a server, a location, a compress profile, the bestCompression override, a cache; restart-only settings of surviving caches held constant as documented), applied by a reload task whose steps interleave with client traffic at every yield point. Then a fixed probe battery (servers x paths x Accept-Encoding x sizes around the thresholds x content types, every probe sent twice) is answered by the live-updated instance, the process image is replaced by a fresh instance started with the final configuration only (same simulated world), and the same battery is answered again: the observation vectors (origin reached, request as the origin saw it, status, headers, Content-Encoding, encoded length, cache label) must be equal, and paths under /var/ reach the origin rewritten by the final configuration's rules and no others. Also: requests to the unchanged server never fail during updates, its cached entries survive, a removed server refuses service after the 10s grace. non-trivial = at least one reload happened and one probe pair was compared; distinct = distinct history hash",
+		ExpectProbes: []string{"probe-pairs-compared", "reloads", "stable-request-during-reload", "stable-entry-hit-after-reload", "removed-server-refused-after-grace", "optional-field-unset", "server-added", "server-removed", "two-servers-removed-in-one-update", "rewrite-of-final-configuration-checked"},
 	})
 }
 
 type c16State struct {
 	s2MinLen, s2Filter, s2Compress, s2Cache string
 	s2Locs                                  []string
-	l2Rewrite, l2ReqH, l2RespH, l2Query     bool
+	l2ReqH, l2RespH, l2Query                bool
+	l2Rewrite                               string
 	l2Upstream                              string
 	l2Timeout                               string
 	u2Server, u2AE, u2Policy                string
@@ -74,8 +76,8 @@ func (st *c16State) config() Config {
 		{Name: "u3", Policy: "first", Servers: []UpstreamSrv{{Addr: "http://" + originC}}},
 	}
 	l2 := LocationCfg{Name: "l2", Upstream: st.l2Upstream, Prefixes: []string{"/var"}, ProxyTimeout: st.l2Timeout}
-	if st.l2Rewrite {
-		l2.Rewrites = []string{"/var/*:/$1"}
+	if st.l2Rewrite != "" {
+		l2.Rewrites = []string{st.l2Rewrite}
 	}
 	if st.l2ReqH {
 		l2.ReqHeaders = []string{"X-From:l2"}
@@ -136,7 +138,7 @@ func (st *c16State) u2Servers() []UpstreamSrv {
 func (st *c16State) mutate(g *Gen) string {
 	switch g.n(0, 15) {
 	case 0:
-		st.s2MinLen = pick(g, "", "", "100", "2kb")
+		st.s2MinLen = pick(g, "", "", "100", "2kb", "0", "0kb")
 		return "s2.minlen=" + st.s2MinLen
 	case 1:
 		st.s2Filter = pick(g, "", "", "json", "text|json")
@@ -165,8 +167,9 @@ func (st *c16State) mutate(g *Gen) string {
 		}
 		return fmt.Sprintf("l3=%v", st.hasL3)
 	case 5:
-		st.l2Rewrite = !st.l2Rewrite
-		return fmt.Sprintf("l2.rewrite=%v", st.l2Rewrite)
+		// set, unset, or the same pattern with another target
+		st.l2Rewrite = pick(g, "", "/var/*:/$1", "/var/*:/$1", "/var/*:/v2/$1", "/var/*:/alt/$1")
+		return fmt.Sprintf("l2.rewrite=%q", st.l2Rewrite)
 	case 6:
 		st.l2ReqH = !st.l2ReqH
 		return fmt.Sprintf("l2.reqh=%v", st.l2ReqH)
@@ -502,6 +505,33 @@ func oracleC16(o *Outcome) []Violation {
 					out = append(out, violation("C16", "configured-server-not-listening", "server of the final configuration does not listen",
 						"client op %d @%s is in the final configuration but the connection is refused", v.R.Op, v.R.Addr))
 				}
+			}
+		}
+	}
+	// what the two instances agree on must also be what the final configuration says: package
+	// level state that outlives the "fresh" start (a cache of compiled rules, say) would hide a
+	// stale setting from the comparison. Checked for the one transformation with a documented
+	// reading that needs no routing model: paths under /var/ (not /var/x, which l3 may claim)
+	// on the servers that always carry l2 are rewritten by l2's rules and nothing else.
+	var l2 *LocationCfg
+	for i := range final.Locations {
+		if final.Locations[i].Name == "l2" {
+			l2 = &final.Locations[i]
+		}
+	}
+	for _, v := range views {
+		if l2 == nil || !(strings.HasPrefix(v.R.Tag, "live:") || strings.HasPrefix(v.R.Tag, "fresh:")) || (v.R.Addr != srvAddr2 && v.R.Addr != srvAddr3) {
+			continue
+		}
+		cu, err := url.ParseRequestURI(v.R.URI)
+		if err != nil || !strings.HasPrefix(cu.Path, "/var/") || strings.HasPrefix(cu.Path, "/var/x") {
+			continue
+		}
+		for _, u := range v.OwnUps {
+			o.Hist.Probes["rewrite-of-final-configuration-checked"]++
+			if want := refRewrite(l2.Rewrites, cu.EscapedPath()); u.Call.Path != want {
+				out = append(out, violation("C16", "stale-rewrite", "path rewritten by a rule that is not in the final configuration",
+					"probe %s %s @%s after configuration history [%s]: the origin saw path %q, the final configuration's rules %v give %q", v.R.Tag, v.R.URI, v.R.Addr, o.Plan.Notes, u.Call.Path, l2.Rewrites, want))
 			}
 		}
 	}
